@@ -7,6 +7,7 @@ package extract
 //@   modifies pbsrc, pbok, marshalOf
 //@   assigns nothing
 //@   ensures err == nil ==> result != nil
+//@   ensures err == nil && istype(result.TeeAttestation, *tpmpb.Attestation_TdxAttestation) ==> dyn(result.TeeAttestation, *tpmpb.Attestation_TdxAttestation) != nil
 
 //@ func fromSevSnpAttestationProto
 //@   assigns nothing
